@@ -45,7 +45,7 @@ Out ==
                keep |-> [k \in 1..Len(d) |-> d[k].i], ttls |-> [k \in 1..Len(d) |-> d[k].ttl[2]]])
     [] Mode = "octets" ->
          LET a == OctRec(x[1], x[2])  b == OctRec(Partner(x[1]), x[2]) IN
-         Emit([kind |-> "octet", c |-> x[1], w |-> x[2],
+         Emit([kind |-> "octet", oct |-> x[1], w |-> x[2],
                ta |-> Present(<< <<120, x[1], 121>> >>), tb |-> Present(<< <<120, Partner(x[1]), 121>> >>),
                dup |-> D(a, b)])
 =============================================================================
